@@ -318,6 +318,8 @@ def specs(tier):
         dict(rows=("ca", "a", (2, 2), {"cats": [(0, False), (1, False), (-1, True)], "selected_id": 1}), cols=None))
     add("2d ca with selected-flag cats in payload order -1,1,0", "two_d",
         dict(rows=("ca", "a", (2, 2), {"cats": [(-1, True), (1, False), (0, False)], "selected_id": 1}), cols=None))
+    add("2d ca whose categories are coded 1, 0, -1 without any selected flag", "two_d",
+        dict(rows=("ca", "a", (2, 2), {"cats": [(1, False), (0, False), (-1, True)]}), cols=None))
     add("2d catdate x cat", "two_d", dict(rows=V("catdate", "a", nv, (0,)), cols=V("cat", "b", nv, (1,))))
     add("2d cat x cat unweighted", "two_d", dict(rows=V("cat", "a", nv, (1,)), cols=V("cat", "b", nv, (0,)), weighted=False))
     # 1-D
